@@ -208,6 +208,12 @@ class Session:
             fr = self.f(arg, initial_states=init, seed=spec[2], additional_targets=["utility"])
             d = _frame_digest(fr)
             canon = spec[3]
+            # the target column must be the model function evaluated with the params of THIS call
+            r = e1.refmodel.Ref(self.model, arg)
+            n = len(next(iter(spec[1].values())))
+            exp = np.concatenate([np.broadcast_to(np.asarray(r.ev("utility", {c: np.asarray(fr.loc[t][c].values) for c in r.states + r.choices}, t, {}), dtype=np.float64), (n,)) for t in range(r.T)])
+            if not np.allclose(fr["utility"].to_numpy(dtype=np.float64), exp, rtol=1e-12, atol=1e-12):
+                self.problems.append(f"additional target 'utility' of {letter} is not the model function evaluated with the params of this call")
         if _snapshot(arg) != before:
             self.problems.append(f"params pytree modified by {letter}")
         if _model_snapshot(self.model) != mb:
